@@ -61,3 +61,13 @@ Proof.
   - rewrite E in H. discriminate.
   - reflexivity.
 Qed.
+
+(* ---- DICOM header dict (dicaugment.augmentations.utils.read_dcm_image):
+   PixelSpacing (row, col), RescaleSlope, RescaleIntercept; every other key/value pair of the
+   dict is represented by one token that no generated function can change except by copying it ---- *)
+Record header := mkHdr { h_spacing : Q * Q; h_slope : Q; h_intercept : Q; h_rest : Z }.
+Definition hdr_set_spacing (h : header) (v : Q * Q) : header := mkHdr v (h_slope h) (h_intercept h) (h_rest h).
+Definition hdr_set_slope (h : header) (v : Q) : header := mkHdr (h_spacing h) v (h_intercept h) (h_rest h).
+Definition hdr_set_intercept (h : header) (v : Q) : header := mkHdr (h_spacing h) (h_slope h) v (h_rest h).
+(* ndarray.astype(np.int16) of an integral value: two's complement wrap *)
+Definition wrap_int16 (z : Z) : Z := ((z + 32768) mod 65536 - 32768)%Z.
